@@ -639,21 +639,19 @@ func ruleRunActionGuards(r *Run, rule string) {
 // statusTest: a branch event that establishes `X.State.Status == <const>` for X of type owner
 // (switch case or == comparison, taken).
 func statusTest(info *types.Info, e Event, owner string) (string, bool) {
+	// what the event establishes in the direction taken (also as one conjunct of a larger condition)
 	if e.Kind != EvBranch || e.Cond == nil {
 		return "", false
 	}
-	if e.Tag != nil {
-		if _, m := FieldPath(info, e.Tag, owner, "State", "Status"); m {
-			return ValueKey(info, e.Cond), true
+	flipped := e
+	flipped.Taken = true // callers test e.Taken themselves: report what the condition being true establishes
+	for _, l := range EventLiterals(info, flipped) {
+		if !l.Eq {
+			continue
 		}
-		return "", false
-	}
-	be, ok := ast.Unparen(e.Cond).(*ast.BinaryExpr)
-	if !ok || be.Op != token.EQL {
-		return "", false
-	}
-	if _, m := FieldPath(info, be.X, owner, "State", "Status"); m {
-		return ValueKey(info, be.Y), true
+		if _, m := FieldPath(info, l.X, owner, "State", "Status"); m {
+			return l.Val, true
+		}
 	}
 	return "", false
 }
